@@ -1,0 +1,226 @@
+//go:build verif
+
+// Contracts for contract-based deductive verification (checked by /verif/govc).
+// This file is comment-only and compiled only with the build tag "verif".
+//
+// C14 (cache part): no panics in the cache operations reached from the NRI handlers.
+
+package cache
+
+// ---- cache representation invariant ---------------------------------------------------------------------
+// Maps allocated by NewCache; no nil pod/container stored; NRI messages behind cached objects present.
+//@ pure podsOK(cch *cache) bool = forall id string :: id in cch.Pods ==> cch.Pods[id] != nil && cch.Pods[id].Pod != nil
+//@ pure ctrsOK(cch *cache) bool = forall id string :: id in cch.Containers ==> cch.Containers[id] != nil && cch.Containers[id].Ctr != nil
+// A Container interface value holding a *container is modelled by the pointer: the "cast" is the identity.
+//@ pure asCtr(c *container) *container = c
+//@ pure cacheOK(cch *cache) bool = cch != nil && cch.Pods != nil && cch.Containers != nil && cch.PolicyJSON != nil && podsOK(cch) && ctrsOK(cch)
+
+// Lookups: ok <==> a non-nil object is returned (what the NRI handlers rely on after `if !ok { return }`).
+// (result0 is an interface holding a *pod / *container; the engine models it by the pointer, so `result0 != nil`
+// speaks about that pointer - in Go the interface returned for a failed lookup is a non-nil interface holding a nil
+// pointer, which is why callers must test `ok`, not the value.)
+//@ func (*cache).LookupPod safety
+//@   requires cch != nil
+//@   modifies nothing
+//@   ensures[C14] result1 <==> (id in cch.Pods)
+//@   ensures[C14] podsOK(cch) ==> (result1 <==> (result0 != nil))
+//@   ensures[C14] result1 ==> result0 == cch.Pods[id]
+//@ func (*cache).LookupContainer safety
+//@   requires cch != nil
+//@   modifies nothing
+//@   ensures[C14] result1 <==> (id in cch.Containers)
+//@   ensures[C14] ctrsOK(cch) ==> (result1 <==> (result0 != nil))
+//@   ensures[C14] result1 ==> result0 == cch.Containers[id]
+
+//@ func (*cache).DeletePod safety
+//@   requires cacheOK(cch)
+//@   ensures[C14] (result != nil) <==> old(id in cch.Pods)
+//@   ensures[C14,C11] old(id in cch.Pods) ==> result == old(cch.Pods[id])
+//@   ensures[C14,C11] dom(cch.Pods) == upd(old(dom(cch.Pods)), id, false)
+//@   ensures[C14,C11] forall k string :: k in cch.Pods ==> cch.Pods[k] == old(cch.Pods[k])
+//@   ensures[C14,C11] dom(cch.Containers) == old(dom(cch.Containers)) && vals(cch.Containers) == old(vals(cch.Containers))
+//@   ensures[C14] cacheOK(cch)
+
+// GetPodResources waits for the pod-resources fetch goroutine (channel receive: outside the verified subset);
+// the result is arbitrary (possibly nil), nothing reachable from the cache is written.
+//@ assume-contract (*pod).GetPodResources
+//@   requires p != nil
+//@   modifies nothing
+
+// Insert options: the only one in the module is WithContainerState (verified below against the same frame).
+//@ functype InsertContainerOption
+//@   requires arg0 != nil && arg0.Ctr != nil
+//@   modifies arg0.Ctr.State
+//@ func WithContainerState$1 tags=C14
+//@   # (no `safety` here: the only extra obligation would be the load through the closure's captured-variable
+//@   #  pointer, which the engine cannot know to be non-nil)
+//@   requires c != nil && c.Ctr != nil
+//@   modifies c.Ctr.State
+//@   ensures[C14] c.Ctr.State == state
+
+// Topology-hint generation reads sysfs and parses YAML annotations; resource estimation is proved for C20 under
+// numeric range preconditions that are irrelevant for memory safety. Both are assumed here to write only their
+// own result field of the container (trusted, not verified).
+//@ assume-contract (*container).generateTopologyHints
+//@   requires c != nil && c.Ctr != nil && c.cache != nil
+//@   modifies c.TopologyHints
+//@ assume-contract (*container).estimateResourceRequirements
+//@   requires c != nil && c.Ctr != nil && c.cache != nil
+//@   modifies c.Requirements
+
+// Looking up one container's entry in the kubelet pod-resources message (other package, protobuf getters):
+// result is a function of the arguments, no effect on the cache.
+//@ effect github.com/containers/nri-plugins/pkg/agent/podresapi.(*PodResources).GetContainer pure
+
+//@ pure optsOK(opts []InsertContainerOption) bool = forall j int :: 0 <= j && j < len(opts) ==> opts[j] != nil
+
+// Default RDT / block-I/O classes from annotations: at most the two class setters run.
+//@ func (*container).setDefaultClasses safety
+//@   requires cwf(c) && reqOK(c) && podsOK(c.cache)
+//@   modifies c.request if c.request == nil, c.pending if c.pending == nil, c.pending[*] if c.pending != nil, c.cache.pending if c.cache.pending == nil, c.cache.pending[*] if c.cache.pending != nil,
+//@     c.Ctr.Linux if c.Ctr.Linux == nil, c.Ctr.Linux.Resources if c.Ctr.Linux != nil && c.Ctr.Linux.Resources == nil,
+//@     asAdj(c.request).Linux if isAdj(c.request) && asAdj(c.request).Linux == nil,
+//@     asAdj(c.request).Linux.Resources if isAdj(c.request) && asAdj(c.request).Linux != nil && asAdj(c.request).Linux.Resources == nil,
+//@     asUpd(c.request).Linux if isUpd(c.request) && asUpd(c.request).Linux == nil,
+//@     asUpd(c.request).Linux.Resources if isUpd(c.request) && asUpd(c.request).Linux != nil && asUpd(c.request).Linux.Resources == nil,
+//@     ctrRes(c).RdtClass if ctrHasRes(c), reqRes(c).RdtClass if reqHasRes(c), ctrRes(c).BlockioClass if ctrHasRes(c), reqRes(c).BlockioClass if reqHasRes(c)
+//@   ensures[C14] cwf(c) && reqOK(c)
+
+//@ func (*cache).createContainer safety
+//@   requires cacheOK(cch) && nriCtr != nil && optsOK(opts)
+//@   modifies nriCtr.State, cch.pending if cch.pending == nil, cch.pending[*] if cch.pending != nil,
+//@     nriCtr.Linux if nriCtr.Linux == nil, nriCtr.Linux.Resources if nriCtr.Linux != nil && nriCtr.Linux.Resources == nil,
+//@     nriCtr.Linux.Resources.RdtClass if nriCtr.Linux != nil && nriCtr.Linux.Resources != nil,
+//@     nriCtr.Linux.Resources.BlockioClass if nriCtr.Linux != nil && nriCtr.Linux.Resources != nil
+//@   ensures[C14] (result0 != nil) <==> (result1 == nil)
+//@   ensures[C14] (result1 == nil) <==> (nriCtr.GetPodSandboxId() in cch.Pods)
+//@   ensures[C14] result1 == nil ==> fresh(result0) && result0.Ctr == nriCtr && result0.cache == cch
+//@ loop 0 in (*cache).createContainer at "range opts"
+//@   modifies nriCtr.State
+//@   invariant[C14] -1 <= rangeindex && rangeindex < len(opts)
+//@   invariant[C14] cacheOK(cch) && fresh(c) && c.Ctr == nriCtr && c.cache == cch && c.request == nil && c.pending == nil
+
+// ---- per-container data directory (file system only) -------------------------------------------------------
+// ContainerDirectory is verified; create/removeContainerDirectory call it and then only the file system
+// (mkdirAll's C10 contract is stated over bit-vectors, os.RemoveAll is outside the subset): assumed heap-neutral.
+//@ func (*cache).ContainerDirectory safety
+//@   requires cch != nil && ctrsOK(cch)
+//@   modifies nothing
+//@ assume-contract (*cache).createContainerDirectory
+//@   requires cch != nil && ctrsOK(cch)
+//@   modifies nothing
+//@ assume-contract (*cache).removeContainerDirectory
+//@   requires cch != nil && ctrsOK(cch)
+//@   modifies nothing
+
+// ---- insert / delete ----------------------------------------------------------------------------------------
+
+// The pod-resources fetch runs in a goroutine (go statement, channels: outside the subset); it writes only the
+// three pod fields below.
+//@ assume-contract (*pod).goFetchPodResources
+//@   requires p != nil
+//@   modifies p.podResCh, p.waitResCh, p.PodResources
+
+//@ func (*cache).createPod safety
+//@   requires cch != nil
+//@   modifies nothing
+//@   ensures[C14] fresh(result) && result.Pod == nriPod && result.cache == cch
+
+//@ func (*cache).InsertPod safety
+//@   requires cacheOK(cch) && nriPod != nil
+//@   ensures[C14] result != nil && cacheOK(cch)
+//@   ensures[C14] dom(cch.Pods) == upd(old(dom(cch.Pods)), nriPod.Id, true) && cch.Pods[nriPod.Id] == result
+//@   ensures[C14] forall id string :: id != nriPod.Id ==> cch.Pods[id] == old(cch.Pods[id])
+//@   ensures[C14] dom(cch.Containers) == old(dom(cch.Containers)) && vals(cch.Containers) == old(vals(cch.Containers))
+
+//@ func (*cache).InsertContainer safety
+//@   requires cacheOK(cch) && ctr != nil && optsOK(opts)
+//@   ensures[C14] (result0 != nil) <==> (result1 == nil)
+//@   ensures[C14] (result1 == nil) <==> old(ctr.GetPodSandboxId() in cch.Pods)
+//@   ensures[C14] cacheOK(cch)
+//@   ensures[C14,C11] result1 == nil ==> dom(cch.Containers) == upd(old(dom(cch.Containers)), ctr.Id, true) && cch.Containers[ctr.Id] == result0 && fresh(result0)
+//@   ensures[C14,C11] result1 != nil ==> dom(cch.Containers) == old(dom(cch.Containers)) && vals(cch.Containers) == old(vals(cch.Containers))
+//@   ensures[C14,C11] forall k string :: k != ctr.Id ==> cch.Containers[k] == old(cch.Containers[k])
+//@   ensures[C14,C11] dom(cch.Pods) == old(dom(cch.Pods)) && vals(cch.Pods) == old(vals(cch.Pods))
+//@   ensures[C11] result1 == nil ==> asCtr(result0).Ctr == ctr && asCtr(result0).cache == cch
+//@   ensures[C11] old(keyed(cch)) ==> keyed(cch)
+//@   # frame facts callers need (a modifies clause is not possible: Save writes the built-in file-system ghost state, which
+//@   # has no name in modifies clauses; "all other map[string]struct{} keep their domain" cannot be written either: the
+//@   # type expression `struct{}` is not accepted for bound variables)
+//@   ensures[C11] forall x *nri.Container :: old(alive(x)) ==> x.Id == old(x.Id) && x.PodSandboxId == old(x.PodSandboxId)
+
+// Note: the entry removed is the one keyed by the container's own id (c.GetID()), not by the argument.
+//@ func (*cache).DeleteContainer safety
+//@   requires cacheOK(cch)
+//@   ensures[C14] (result != nil) <==> old(id in cch.Containers)
+//@   ensures[C14,C11] old(id in cch.Containers) ==> result == old(cch.Containers[id]) && dom(cch.Containers) == upd(old(dom(cch.Containers)), old(cch.Containers[id]).Ctr.Id, false)
+//@   ensures[C14,C11] !old(id in cch.Containers) ==> dom(cch.Containers) == old(dom(cch.Containers))
+//@   ensures[C14,C11] forall k string :: k in cch.Containers ==> cch.Containers[k] == old(cch.Containers[k])
+//@   ensures[C14,C11] dom(cch.Pods) == old(dom(cch.Pods)) && vals(cch.Pods) == old(vals(cch.Pods))
+//@   ensures[C14] cacheOK(cch)
+//@   ensures[C11] old(keyed(cch)) ==> keyed(cch)
+
+// ---- resource updates (UpdateContainer) ----------------------------------------------------------------------
+// Value ranges of the cgroup parameters (the C20 contract of estimateResourceRequirements is stated for them;
+// they are irrelevant for memory safety but needed to call it).
+//@ pure resRange(r *nri.LinuxResources) bool =
+//@    0 <= int64(r.GetCpu().GetShares().GetValue()) && int64(r.GetCpu().GetShares().GetValue()) <= 1 << 40 &&
+//@    0 <= r.GetCpu().GetQuota().GetValue() && r.GetCpu().GetQuota().GetValue() <= 1 << 40 &&
+//@    0 <= int64(r.GetCpu().GetPeriod().GetValue()) && int64(r.GetCpu().GetPeriod().GetValue()) <= 1 << 30
+//@ pure hostOK() bool = kubernetes.GetMemoryCapacity() >= 1 << 20 && kubernetes.GetMemoryCapacity() <= 1 << 53 && kubernetes.tableOK()
+
+// mergeNRIResources: both arguments and every sub-message below them may be nil (absent NRI sub-messages).
+//@ func mergeNRIResources safety
+//@   ensures[C14] result != nil && (u != nil ==> result == u) && result.Cpu != nil && result.Memory != nil
+//@   ensures[C14] old(resRange(u)) && old(resRange(orig)) ==> resRange(result)
+
+// The update message and the cached container's Linux.Resources are optional NRI sub-messages: nothing is
+// required about them beyond value ranges, so the two call-pre obligations of mergeNRIResources (u != nil,
+// orig != nil) are exactly the question "can an absent sub-message crash UpdateContainer".
+//@ func (*container).SetResourceUpdates safety
+//@   requires c != nil && c.Ctr != nil && c.cache != nil && podsOK(c.cache) && hostOK()
+//@   requires resRange(r) && resRange(c.Ctr.GetLinux().GetResources())
+//@   ensures[C14] c.ResourceUpdates != nil
+
+// ---- affinity annotations -----------------------------------------------------------------------------------
+// yaml.UnmarshalStrict (reflection) is outside the verified subset: ASSUMED to write only through the pointer it
+// is given.
+//@ assume-contract sigs.k8s.io/yaml.UnmarshalStrict
+//@   modifies *obj
+//@ func (*podContainerAffinity).parseSimple safety
+//@   requires pca != nil && *pca != nil && pod != nil
+//@ loop 0 in (*podContainerAffinity).parseSimple at "range values"
+//@   # outer loop "range parsed": the engine anchors it on the innermost for statement containing its body, i.e. the inner for line.
+//@   # $t7 is the local map `symmetric` (its debug reference at the definition resolves to a nil constant).
+//@   invariant[C14] $t7 != nil && (forall k string :: k in $t7 ==> $t7[k] != nil) && *pca != nil
+//@ loop 1 in (*podContainerAffinity).parseSimple at "range values"
+//@   invariant[C14] $t7 != nil && (forall k string :: k in $t7 ==> $t7[k] != nil) && *pca != nil
+
+// Annotation-derived container affinities, parsed lazily and cached in the pod. The body was checked with
+// `func (*pod).GetContainerAffinity safety / requires p != nil` (all safety obligations discharged), but no frame
+// can be proved for it: yaml.UnmarshalStrict inside parseSimple/parseFull has no model and havocs the whole heap.
+// For its callers the frame is therefore assumed: only the pod's cached Affinity pointer and fresh objects change.
+//@ assume-contract (*pod).GetContainerAffinity
+//@   requires p != nil
+//@   modifies p.Affinity
+
+// Implicit affinity generators are policy callbacks; assumed not to write cache state.
+//@ functype ImplicitAffinity
+//@   modifies nothing
+//@ pure implicitOK(cch *cache) bool = forall k string :: k in cch.implicit ==> cch.implicit[k] != nil
+
+//@ func (*container).implicitAffinities safety
+//@   requires c != nil && c.Ctr != nil && c.cache != nil && implicitOK(c.cache)
+//@   modifies nothing
+
+// No requirement that the container's pod is (still) cached: lookups may fail.
+//@ func (*container).GetAffinity safety
+//@   requires c != nil && c.Ctr != nil && c.cache != nil && podsOK(c.cache) && implicitOK(c.cache)
+
+// parseFull has its (C19) contract block in verif_contracts.go, which this file must not change; a second block or
+// a C14 assert from here is rejected/ignored by the engine (one block per function, selected by its own tags).
+// To put it under the C14 safety sweep change that block's header to
+//     //@ func (*podContainerAffinity).parseFull tags=C19 safety=C14
+//     //@   requires pca != nil && *pca != nil && pod != nil
+// Observed with that edit: all safety obligations discharge except safe:nil-field#3 (a.Scope on a nil *Affinity list
+// item; genuine, reproduced) and safe:nilmap#1 ((*pca)[name] after the unmodelled yaml.UnmarshalStrict).
